@@ -219,8 +219,19 @@ def r1(ctx):
                   "forward pads the input to (%s)" % ", ".join(vals))
     padding_applied(ctx, "R08.1")
     conv_calls = [x for x in walk(ffn["body"]) if x.get("k") == "mcall" and x["callee"] == "convolution::Convolution::convolve"]
-    ctx.check("R08.1", "Convolution:convolve-gets-padded-input", len(conv_calls) == 1 and len(pads) == 1 and pretty(strip(conv_calls[0]["args"][0])) == pretty(strip(pads[0]["args"][0])),
-              "convolve-input", c.loc(ffn), "convolve(&x, ..) with the padded x")
+    okci = False
+    if len(conv_calls) == 1 and len(pads) == 1:
+        from ..hir import resolve as _res2, let_table as _lt2
+        a0 = strip(conv_calls[0]["args"][0])
+        r0 = _res2(a0, _lt2(ffn["body"]))
+        if r0 is pads[0] or (r0 is not None and r0.get("k") == "call" and r0.get("callee") == "tensor::pad3d"):
+            okci = True            # `let padded = pad3d(&x, ..); convolve(&padded, ..)`
+        elif a0.get("k") == "local":
+            # `x = pad3d(&x, ..); convolve(&x, ..)`: the variable handed over was last assigned the padded tensor
+            asg_ = [y for y in walk(ffn["body"]) if (y.get("k") == "assign" and e4.local_hid(y["l"]) == a0["hid"] and strip(y["r"]) is pads[0])
+                    or (y.get("k") == "let" and y["pat"].get("k") == "bind" and y["pat"]["hid"] == a0["hid"] and y.get("init") is not None and strip(y["init"]) is pads[0])]
+            okci = len(asg_) == 1
+    ctx.check("R08.1", "Convolution:convolve-gets-padded-input", okci, "convolve-input", c.loc(ffn), "convolve(&x, ..) with the padded x")
     pex = mac.extract(c, ctx.fn("tensor::pad3d"))
     pa = [v for h, v in pex.allocs.items() if pex.names[h] == "padded"]
     ctx.check("R08.1", "pad3d:returns-requested-extent", bool(pa) and [str(z) for z in pa[0]] == ["len(data)", "into.0", "into.1"], "pad3d-extent:" + str(pa), "tensor::pad3d",
@@ -345,7 +356,25 @@ def r2(ctx):
     dfn = ctx.fn("dense::Dense::create")
     lit = [x for x in walk(dfn["body"]) if x.get("k") == "struct" and x["path"].endswith("dense::Dense")]
     w = pretty(strip(dict((a_, e_) for a_, e_ in lit[0]["fs"])["weights"])) if lit else ""
-    ctx.check("R08.2", "Dense:weights-outputs-x-inputs", "tensor::Shape::Double(output, input)" in w, "dense-weight-shape:" + short(w, 80), c.loc(dfn), "weights: Double(output, input)")
+    okw = "tensor::Shape::Double(output, input)" in w
+    if not okw:
+        # E6: on the path where inputs and outputs are both Shape::Single, weights = random(Double(outputs.0, inputs.0), ..)
+        from .. import e6
+        E_ = e6.Exec(c, dfn)
+        IN_, OUT_ = ("p", "inputs"), ("p", "outputs")
+        res_ = []
+        for p_ in E_.run_fn():
+            if p_.exit is not None and p_.exit[0] != "return":
+                continue
+            val_ = p_.val if p_.exit is None else p_.exit[1]
+            f_ = dict(val_[2]) if isinstance(val_, tuple) and val_ and val_[0] == "struct" else {}
+            r_ = e6.is_call(f_.get("weights"), "random")
+            sh_ = r_[0] if r_ else None
+            good = (isinstance(sh_, tuple) and sh_ and sh_[1].endswith("Shape::Double") and len(sh_[2]) == 2
+                    and e6.strip_upd(sh_[2][0]) == ("payload", OUT_, "tensor::Shape::Single", 0) and e6.strip_upd(sh_[2][1]) == ("payload", IN_, "tensor::Shape::Single", 0))
+            res_.append(good)
+        okw = bool(res_) and all(res_)
+    ctx.check("R08.2", "Dense:weights-outputs-x-inputs", okw, "dense-weight-shape:" + short(w, 80), c.loc(dfn), "weights: Double(output, input)")
     for fpath in ("network::Network::set_optimizer", "feedback::Feedback::copy_optimizer"):
         fn = ctx.fn(fpath)
         short_n = fpath.split("::")[1]
